@@ -20,6 +20,11 @@
 //   Legality (overlaps, cells outside rows), throws and aborts are NOT failures
 //   here (C01/C02/C07); they are counted.  A polarised cell that does not sit in
 //   a free row segment is skipped and counted.
+//   Row listing (family: code that relies on the rows being listed bottom-up / left to right within a y, or that sorts
+//   them only partially -- by y alone, or not at all when a cheaper test says "sorted"): four cases in ten have their rows
+//   cut into segments of independently drawn orientations (so that the segments of one y prescribe different
+//   orientations) and/or listed in another order (reversed, shuffled, bottom-up but right to left within a y, top-down,
+//   one adjacent pair exchanged).  The oracle looks the segment up by geometry, so it does not depend on the listing.
 //
 // Part 3 (object histories, harness/common/history.hpp; oracle.txt + a correspondence case per observation): ONE Circuit
 //   object goes through a random sequence of public mutators (setRows, setupRows with all flag combinations,
@@ -50,6 +55,7 @@
 
 #include "common/circuit.hpp"
 #include "common/history.hpp"
+#include "legalize_common.hpp"  // lg::resegmentRows, lg::relistRows
 #include "place_detailed/legalizer.hpp"
 
 using namespace coloquinte;
@@ -143,6 +149,7 @@ struct Case {
   ColoquinteParameters params{3};
   int effort = 3;
   std::string stream;
+  std::vector<std::string> tags;  // further counters of the measured distribution (row listing)
   std::string input() const { return vc::circuitString(circ) + paramsLine(params, effort) + "\n"; }
 };
 
@@ -303,6 +310,19 @@ static Case makeCase(uint64_t seed, long long k) {
     cs.stream = "main";
   }
   cs.circ = vc::genCircuit(g, o);
+  {
+    // the listing of the rows (drawn from a generator of its own so that the rest of the case stays what it was)
+    vh::Rng gr = vh::Rng::forCase(seed, 7000000000ll + k);
+    int sel2 = gr.range(0, 9);
+    if (sel2 < 4) {
+      bool reseg = sel2 != 3;  // 0-2: resegmented and relisted, 3: relisted only
+      if (reseg) { lg::resegmentRows(gr, cs.circ, 1, 2, 3); cs.tags.push_back("rows_resegmented_independent_orientations"); }
+      static const int modes[] = {2, 2, 4, 0, 1, 3};  // the listings a partial sort gets wrong are drawn most often
+      int m = modes[gr.range(0, 5)];
+      lg::relistRows(gr, cs.circ, m);
+      cs.tags.push_back(std::string("rows_listed_") + lg::rowListingName(m));
+    }
+  }
   if (g.chance(1, 8)) { vc::translate(cs.circ, g.range(-(1ll << 26), 1ll << 26), g.range(-(1ll << 26), 1ll << 26)); cs.stream += "+far"; }
   bool nonDefault = g.chance(1, 2);
   // genParams draws the effort first: read it from a copy of the generator state (every field
@@ -644,6 +664,7 @@ static std::vector<std::string> staticStats(const Case &cs) {
   std::vector<std::string> st;
   const Circuit &c = cs.circ;
   st.push_back("stream_" + cs.stream);
+  for (auto &t : cs.tags) st.push_back(t);
   int H = c.nbRows() ? c.rows()[0].height() : 1;
   int nPol = 0;
   for (int i = 0; i < c.nbCells(); ++i) {
@@ -816,7 +837,8 @@ int main(int argc, char **argv) {
              "(vc::genCircuit: 1-8 rows, alternating / uniform / irregular N,S,FN,FS row orientations, split rows, polarities "
              "ANY/SAME/OPPOSITE/NW/SE on cells of 1-4 rows, fixed cells, nets) with effort and non-default parameter streams; "
              "orientation oracle after legalize, at every Detailed callback and after placeDetailed; non-trivial = at least one "
-             "movable cell with a polarity and Circuit::legalize returned; distinct by canonical text of circuit + parameters. "
+             "movable cell with a polarity and Circuit::legalize returned; distinct by canonical text of circuit + parameters; "
+             "four cases in ten have rows cut into segments of independent orientations and/or listed out of order (rows_* counters). "
              "part 3: object histories (public mutators and legalize / placeDetailed interleaved on one Circuit object, circuits kept in "
              "the C01 domain): every observation is one evaluation (orientation oracle against the current rows, comparison with the "
              "same call on a freshly rebuilt circuit, orientation of every placed movable cell compared with the model's "
